@@ -530,6 +530,13 @@ def r9(ctx):
 def count_ok(cnt, evs, vi, pops):
     if cnt is None:
         return False
+    # `a.saturating_add(b)` / `a.wrapping_add(b)` of two lengths of live collections is `a + b` (each is at most isize::MAX);
+    # `after.saturating_sub(before)` of a vector that only grew is `after - before`
+    if cnt[0] == 'call' and len(cnt) > 3 and len(cnt[3]) == 2:
+        if cnt[2] in ('core::num::saturating_add', 'core::num::wrapping_add'):
+            cnt = ('bin', 'Add', cnt[3][0], cnt[3][1])
+        elif cnt[2] in ('core::num::saturating_sub', 'core::num::wrapping_sub'):
+            cnt = ('bin', 'Sub', cnt[3][0], cnt[3][1])
     first_pop = pops[0].idx if pops else 10 ** 9
     qlen = [e for e in evs if e.name == 'Q.len' and e.idx < first_pop]
     wlen = [e for e in evs if e.name == 'WL.len' and e.idx < first_pop]
